@@ -30,10 +30,14 @@ m = {
               "baseline_off_cmd": "cd /repo && /venv/bin/python -m pytest -ra -q -p no:cacheprovider --timeout=900 --continue-on-collection-errors",
               "source_commits": [], "add_only": True},
     "engines": [{"name": "sa", "path": "/verif/sa", "serves_properties": sorted(CLAIMS),
-                 "kind_free_text": "repository-specific static analyser on python ast: repo model (MRO/imports), inter-procedural def-use value graph with TensorDict cells, polynomial/comparison/boolean normal forms, layout algebra, reference tables"}],
+                 "kind_free_text": "repository-specific static analyser on python ast: repo model (MRO/imports), inter-procedural def-use value graph with TensorDict cells, polynomial/comparison/boolean normal forms, batch-axis rank inference, layout algebra, dimensional (length/time) analysis, reference tables"}],
     "checks": checks,
     "not_applicable": na,
-    "notes": "All checks are static analysis over /repo's current working tree (stdlib ast only; nothing of the repo is imported or executed). Exit 0 ok / 1 VIOLATION / 2 ANALYSIS-ERROR.",
+    "notes": ("All checks are static analysis over /repo's current working tree (stdlib ast only; nothing of the repo is imported or executed). Exit 0 ok / 1 VIOLATION / "
+              "2 ANALYSIS-ERROR. The thorough tier runs the same decision procedure and then tests the procedure itself, still without executing rl4co: "
+              "(1) a corpus of source variants evaluated in memory (sa/selftest/corpus.py: mutants that must be reported by the named rule, equivalents that must stay silent) and "
+              "(2) metamorphic whole-repo rewrites (sa/selftest/equiv.py: local renames, mirrored comparisons, dim= keywords, commuted operands, size()/shape[]) on which the "
+              "verdicts must not change. Open genuine defects are listed in known_findings.json and printed as KNOWN-FINDING lines."),
 }
 json.dump(m, open(os.path.join(V, "MANIFEST.json"), "w"), indent=1)
 print("checks:", len(checks), "n/a:", len(na))
